@@ -223,8 +223,11 @@ def _run_composed(b: prog.Built, P: Dict[str, Any], real_inputs: Any, case: Dict
 def cases(draw: Any, tier: str) -> Dict[str, Any]:
     P = draw(gen.flat_prog(min_sites=3, max_sites=8, max_deps=3, resources=gen.RES, dep_kinds=("pos", "kw", "flag"),
                            n_setup=draw(st.integers(0, 2)), stamp_setup=True, n_params=2, index_rate=0.3, prio_range=(-1, 2),
-                           n_debug=draw(st.sampled_from([0, 0, 1, 2]))))
+                           n_debug=draw(st.sampled_from([0, 0, 1, 2])), many_args_rate=0.06))
     P["params"] = [["p0", None], ["p1", {"d": draw(st.sampled_from([5, "d1", 0]))}]]
+    for f_ in P["fns"].values():
+        if f_.get("setup") and f_.get("kind") == "term" and draw(st.sampled_from([True, False, False])):
+            f_["kind"] = "nocopy"  # data: a setup result that can be neither deep-copied nor pickled (a connection, a lock)
     sites = [s["site"] for s in P["body"]]
     # setup sites can not be inputs (a setup node must not depend on a DAG input); debug sites are not offered either
     nonsetup = [s["site"] for s in P["body"] if not P["fns"][s["fn"]].get("setup") and not P["fns"][s["fn"]].get("debug")]
